@@ -24,10 +24,12 @@ structure LinkFits (m : Mol) (l : Link) (mp : Map) : Prop where
   /-- on molecule atoms, injectively, every atom satisfies the link node's attribute conditions
   (`linkPred` = `_atoms_match`), required bonds are present and absent bonds are absent (induced) -/
   iso : IsIndIsoP m.graph l.graph (linkPred m l) (Map.toFun mp)
-  /-- non-edges: no neighbour of the anchor sits in the residue `resid(anchor) + order` and matches -/
+  /-- non-edges: no neighbour of the anchor has a residue number in the order relation
+  `match_order(anchor order, anchor resid, partner order, neighbour resid)` and matches the partner's attributes -/
   nonEdges : ∀ ne ∈ l.nonEdges, ne.1 ∈ l.keys → ∀ nb ∈ m.neighbors (Map.toFun mp ne.1),
-      ∃ d, toOrder ne.2 = some d ∧
-        ¬ (m.resid nb = m.resid (Map.toFun mp ne.1) + d ∧ ∃ n, m.node? nb = some n ∧ atomsMatch n ne.2 = true)
+      (interpretOrder (anchorOrder l ne.1)).isSome = true ∧ (interpretOrder (partnerOrder ne.2)).isSome = true ∧
+        ¬ (matchOrder (anchorOrder l ne.1) (m.resid (Map.toFun mp ne.1)) (partnerOrder ne.2) (m.resid nb) = some true
+            ∧ ∃ n, m.node? nb = some n ∧ atomsMatch n ne.2 = true)
   /-- patterns: none given, or at least one of them holds -/
   patterns : l.patterns = [] ∨
       ∃ p ∈ l.patterns, ∀ kt ∈ p, ∃ n, m.node? (Map.toFun mp kt.1) = some n ∧ atomsMatch n kt.2 = true
@@ -66,9 +68,9 @@ theorem node?_of_mem (m : Mol) (k : Int) (h : k ∈ m.keys) : ∃ n, m.node? k =
 theorem nonEdgeOk_iff (m : Mol) (l : Link) (mp : Map) (ne : Int × TAttrs) :
     nonEdgeOk m l mp ne = some true ↔
       (ne.1 ∈ l.keys → ∀ nb ∈ m.neighbors (Map.toFun mp ne.1),
-        ∃ d, toOrder ne.2 = some d ∧
-          ¬ (m.resid nb = m.resid (Map.toFun mp ne.1) + d ∧
-              ∃ n, m.node? nb = some n ∧ atomsMatch n ne.2 = true)) := by
+        (interpretOrder (anchorOrder l ne.1)).isSome = true ∧ (interpretOrder (partnerOrder ne.2)).isSome = true ∧
+          ¬ (matchOrder (anchorOrder l ne.1) (m.resid (Map.toFun mp ne.1)) (partnerOrder ne.2) (m.resid nb) = some true
+              ∧ ∃ n, m.node? nb = some n ∧ atomsMatch n ne.2 = true)) := by
   unfold nonEdgeOk
   by_cases hk : ne.1 ∈ l.keys
   · have hc : (!(l.keys.contains ne.1)) = false := by simp [hk]
@@ -77,27 +79,35 @@ theorem nonEdgeOk_iff (m : Mol) (l : Link) (mp : Map) (ne : Int × TAttrs) :
     · simp [hn]
     · have hc2 : (m.neighbors (Map.toFun mp ne.1)).isEmpty = false := by simpa using hn
       simp only [hc2, Bool.false_eq_true, if_false]
-      cases hd : toOrder ne.2 with
+      obtain ⟨nb0, hnb0⟩ := List.exists_mem_of_ne_nil _ hn
+      cases ha : interpretOrder (anchorOrder l ne.1) with
       | none =>
-        simp only [reduceCtorEq, false_and, exists_false, false_iff]
+        simp only [reduceCtorEq, false_iff]
         intro h
-        obtain ⟨nb, hnb⟩ := List.exists_mem_of_ne_nil _ hn
-        exact h nb hnb
-      | some d =>
-        simp only [Option.some.injEq, Bool.not_eq_true', List.any_eq_false, Bool.and_eq_true, beq_iff_eq,
-          exists_eq_left']
-        constructor
-        · intro h nb hnb hc
-          apply h nb hnb
-          obtain ⟨h1, n, h2, h3⟩ := hc
-          exact ⟨h1, by simp [h2, h3]⟩
-        · intro h nb hnb hc
-          apply h nb hnb
-          obtain ⟨h1, h2⟩ := hc
-          refine ⟨h1, ?_⟩
-          cases hnode : m.node? nb with
-          | none => simp [hnode] at h2
-          | some n => exact ⟨n, rfl, by simpa [hnode] using h2⟩
+        have := (h nb0 hnb0).1
+        simp at this
+      | some a =>
+        cases hb : interpretOrder (partnerOrder ne.2) with
+        | none =>
+          simp only [reduceCtorEq, false_iff]
+          intro h
+          have := (h nb0 hnb0).2.1
+          simp at this
+        | some b =>
+          simp only [Option.some.injEq, Bool.not_eq_true', List.any_eq_false, Bool.and_eq_true, beq_iff_eq,
+            Option.isSome_some, true_and]
+          constructor
+          · intro h nb hnb hc
+            apply h nb hnb
+            obtain ⟨h1, n, h2, h3⟩ := hc
+            exact ⟨h1, by simp [h2, h3]⟩
+          · intro h nb hnb hc
+            apply h nb hnb
+            obtain ⟨h1, h2⟩ := hc
+            refine ⟨h1, ?_⟩
+            cases hnode : m.node? nb with
+            | none => simp [hnode] at h2
+            | some n => exact ⟨n, rfl, by simpa [hnode] using h2⟩
   · simp [hk]
 
 theorem validNonEdges_iff (m : Mol) (l : Link) (mp : Map) (nes : List (Int × TAttrs)) :
